@@ -65,6 +65,17 @@ pub(crate) fn apply_file_system_operations(
                     .get(content.idx)
                     .expect("index should be valid for artifacts vec")
                     .file_content;
+                // The plan does not always contain a CreateDirectory for the directory
+                // of a file (e.g. root files after the artifact directory was deleted).
+                if let Some(parent) = path.parent() {
+                    fs::create_dir_all(parent).map_err(|e| {
+                        unable_to_do_something_at_path_diagnostic(
+                            path,
+                            &e.to_string(),
+                            "create parent directory of file",
+                        )
+                    })?;
+                }
                 fs::write(path.clone(), content.as_bytes()).map_err(|e| {
                     unable_to_do_something_at_path_diagnostic(
                         path,
